@@ -272,7 +272,9 @@ func runC09(c *Ctx) error {
 				return err
 			}
 			label := fmt.Sprintf("%s-%d/labels=%d/pad=%d/rep=%d", sp.kind, sp.n, labelMode, padMode, rep)
-			ms.announceAll(c.Rng.Perm(sp.n))
+			if crashed := ms.announceAll(c.Rng.Perm(sp.n)); len(crashed) > 0 {
+				c.Violate(fmt.Sprintf("sending the router announcement crashed on %d link(s) (%v): these peers never learn the route", len(crashed), crashed), "announce-crash", map[string]any{"mesh": label, "routers": crashed})
+			}
 			caseEvery := 7
 			if sp.n > 8 {
 				caseEvery = 41
